@@ -99,6 +99,7 @@ typedef struct {
     int is13, ccs[2];
     int alert[2];                   /* description of a plaintext alert emitted by side, 0 none */
     int after[2];                   /* non-alert records emitted by side after the (last) injection */
+    int c_after_sh;                 /* non-alert records emitted by the client after the first ServerHello was delivered */
     int ske_group, ske_sigalg, cv_sigalg;
     int roundtrip_bad, setup_rc;
     char setup_what[80];
@@ -377,6 +378,7 @@ static void inspect_unit(run_t *R, int d, unsigned char **pp, int *plen)
         else
         {
             R->after[d]++;
+            if (d == 0 && R->nsh > 0) R->c_after_sh++;
         }
         if (type == 20) R->ccs[d] = 1;
         if (type == 22 && !enc)
@@ -463,11 +465,11 @@ static void run_exec(run_t *R)
 }
 
 /* ----------------------------------------------------------------------------- products -> config */
-enum { P_VER = 0, P_VERD, P_VXS, P_SUITE, P_SUITE12, P_GRP13, P_GRP12, P_SIG13, P_SIG12, P_SIG13CA, P_EMS, P_FB, P_RW, P_NPROD };
-static const char *pname[] = { "ver", "verd", "vxs", "suite", "suite12", "grp13", "grp12", "sig13", "sig12", "sig13ca", "ems", "fb", "rw" };
+enum { P_VER = 0, P_VERC, P_VERD, P_VXS, P_SUITE, P_SUITE12, P_GRP13, P_GRP12, P_SIG13, P_SIG12, P_SIG13CA, P_EMS, P_FB, P_RW, P_NPROD };
+static const char *pname[] = { "ver", "verc", "verd", "vxs", "suite", "suite12", "grp13", "grp12", "sig13", "sig12", "sig13ca", "ems", "fb", "rw" };
 static long psize(int p)
 {
-    static const long n[] = { NVL * NVL, 4, 2401, 225, 225, 450, 49, 225, 225, 225, 36, 25, 12 };
+    static const long n[] = { NVL * NVL, 2 * NVL * NVL, 4, 2401, 225, 225, 450, 49, 225, 225, 225, 36, 25, 12 };
     return n[p];
 }
 
@@ -497,8 +499,27 @@ static int build_cfg(int prod, long idx, ncfg_t *c)
         c->keys = K_PSK;
         set_vl(c->cver, &c->ncver, (int) (idx / NVL));
         set_vl(c->sver, &c->nsver, (int) (idx % NVL));
-        c->csuite[0] = S_13A; c->csuite[1] = S_PSK; c->ncsuite = 2;
+        /* a client list may only contain suites usable with one of its versions (the API refuses the session otherwise) */
+        for (i = 0; i < c->ncver; i++) if (c->cver[i] == T13) c->csuite[0] = S_13A;
+        if (!c->ncver) c->csuite[0] = S_13A;
+        c->ncsuite = c->csuite[0] ? 1 : 0;
+        c->csuite[c->ncsuite++] = S_PSK;
         break;
+    case P_VERC:
+    {
+        /* the same ordered-list product with certificate suites: RSA (idx < 256) and ECDSA credentials */
+        int ec = idx >= NVL * NVL, has13 = 0, has12 = 0;
+        long j = idx % (NVL * NVL);
+        c->keys = ec ? K_EC : K_RSA;
+        set_vl(c->cver, &c->ncver, (int) (j / NVL));
+        set_vl(c->sver, &c->nsver, (int) (j % NVL));
+        for (i = 0; i < c->ncver; i++) { if (c->cver[i] == T13) has13 = 1; if (c->cver[i] == T12) has12 = 1; }
+        if (!c->ncver) has13 = has12 = 1;
+        if (has13) c->csuite[c->ncsuite++] = S_13A;
+        if (has12) c->csuite[c->ncsuite++] = ec ? S_EECG : S_ERSA;
+        c->csuite[c->ncsuite++] = ec ? S_EEC : S_ERSAC;
+        break;
+    }
     case P_VERD:
         c->keys = K_PSK; c->dtls = 1;
         set_dl(c->cver, &c->ncver, (int) (idx / 2));
@@ -584,7 +605,7 @@ static int build_cfg(int prod, long idx, ncfg_t *c)
             static const int cl[3] = { 1, 2, 5 };
             set_vl(c->cver, &c->ncver, cl[idx / 7]);
             set_vl(c->sver, &c->nsver, (int) (idx % 7));
-            c->csuite[0] = S_13A; c->csuite[1] = S_PSK; c->ncsuite = 2;
+            c->csuite[0] = S_PSK; c->ncsuite = 1;
         }
         else
         {
@@ -664,11 +685,16 @@ static int sig_feasible(const ncfg_t *c, int rank)
 {
     int i;
     if (!c->ncsig && !c->nssig) return 1;
+    /* TLS 1.2 (observed + documented as a verification list): the server does not apply its own list to its
+       ServerKeyExchange signature; the client's list must cover the chain (sha256WithRSA = 0401) and the SKE signature.
+       TLS 1.3: the server signs CertificateVerify with an algorithm from client list ^ own list usable with its RSA key
+       (rsa_pss_rsae_*); chain signatures are governed by signature_algorithms_cert (default: everything). */
+    if (rank < 3) return !c->ncsig || in16(c->csig, c->ncsig, 0x0401);
     for (i = 0; i < c->ncsig; i++)
     {
         int a = c->csig[i];
         if (c->nssig && !in16(c->ssig, c->nssig, a)) continue;
-        if (rank == 3 ? (a >= 0x0804 && a <= 0x0806) : (a == 0x0401 || a == 0x0501 || a == 0x0601 || a == 0x0201 || (a >= 0x0804 && a <= 0x0806))) return 1;
+        if (a >= 0x0804 && a <= 0x0806) return 1;
     }
     return 0;
 }
@@ -706,6 +732,7 @@ static void reference(const ncfg_t *c, ref_t *r)
     {
         if (!(r->common & (1 << i))) continue;
         if (!r->top_rank) r->top_rank = i;
+        if (i < 3 && c->sems > 0 && c->cems < 0) continue;   /* server requires EMS, client switched it off */
         if (!r->ref_rank && rank_feasible(c, i)) r->ref_rank = i;
     }
     r->default_order = is_default_order(c->cver, c->ncver) && is_default_order(c->sver, c->nsver);
@@ -750,6 +777,22 @@ static void check_sentinel(run_t *R, const ref_t *ref, verdict_t *v)
     else if (!(ref->sset & 8) && (!memcmp(sh->random + 24, "DOWNGRD\x01", 8) || !memcmp(sh->random + 24, "DOWNGRD\x00", 8)) && R->c->nsver)
     {
         VIOL("server-sets-downgrade-sentinel-without-tls13", "server without TLS 1.3 put the downgrade sentinel into ServerHello.random");
+    }
+}
+
+/* client-side obligation (RFC 8446 4.1.3): a client that enabled TLS 1.3 and receives a <= 1.2 ServerHello carrying the
+   sentinel MUST abort with illegal_parameter (checked when the ServerHello was delivered as the server sent it) */
+static void check_client_sentinel(run_t *R, const ref_t *ref, verdict_t *v)
+{
+    const hello_t *sh;
+    if (R->c->dtls || R->nsh == 0 || R->target >= 3 || !(ref->ceff & 8)) return;
+    sh = &R->sh[R->nsh > 1 ? 1 : 0];
+    if (hello_is_hrr(sh) || hello_find(sh, X_SUPPORTED_VERSIONS) >= 0) return;
+    if (memcmp(sh->random + 24, "DOWNGRD\x01", 8) && memcmp(sh->random + 24, "DOWNGRD\x00", 8)) return;
+    if (R->complete[0] || R->c_after_sh > 0 || R->alert[0] != 47)
+    {
+        VIOL("client-ignores-downgrade-sentinel", "TLS 1.3 capable client received a %s ServerHello with the downgrade sentinel and did not abort with illegal_parameter (complete %d, %d more records, alert %d)",
+            enc_name((sh->legacy[0] << 8) | sh->legacy[1]), R->complete[0], R->c_after_sh, R->alert[0]);
     }
 }
 
@@ -840,7 +883,6 @@ static void check_completed(run_t *R, const ref_t *ref, int assert_reference, ve
             n = xi >= 0 ? xlist_get(ch, xi, 2, l, 64) : 0;
             if (xi >= 0 && !in16(l, n, a)) VIOL("sigalg-not-offered", "server signed with %04x which is not in ClientHello.signature_algorithms", a);
             if (c->ncsig && !in16(c->csig, c->ncsig, a)) VIOL("sigalg-not-enabled|client", "server signed with %04x which the client did not enable", a);
-            if (c->nssig && !in16(c->ssig, c->nssig, a)) VIOL("sigalg-not-enabled|server", "server signed with %04x which is not in the server's own signature algorithm list", a);
         }
         if (c->client_auth && rank == 2 && R->cv_sigalg && c->nssig && !in16(c->ssig, c->nssig, R->cv_sigalg)) VIOL("sigalg-not-enabled|server", "client CertificateVerify uses %04x which the server did not enable", R->cv_sigalg);
     }
@@ -864,12 +906,14 @@ static void judge(run_t *R, int prod, verdict_t *v)
     if (R->setup_rc)
     {
         snprintf(v->outcome, sizeof(v->outcome), "%s:setup-refused", pname[prod]);
-        if (prod == P_FB) return;   /* fallbackScsv on a client whose highest version is the build's highest is refused by the API: fine */
+        /* the API refusing to create a client whose suite list contains a suite unusable with its versions is a safe outcome */
+        if ((prod == P_VXS || prod == P_FB) && !strncmp(R->setup_what, "NewClientSession", 16)) return;
         v->viol = 2; snprintf(v->key, sizeof(v->key), "INTERNAL:setup"); snprintf(v->what, sizeof(v->what), "%s", R->setup_what);
         return;
     }
     if (R->roundtrip_bad) { v->viol = 2; snprintf(v->key, sizeof(v->key), "INTERNAL:hello-roundtrip"); snprintf(v->what, sizeof(v->what), "parser/encoder does not reproduce a hello (%d)", R->roundtrip_bad); return; }
     check_sentinel(R, &ref, v);
+    check_client_sentinel(R, &ref, v);
     if (R->target >= 0)
     {
         const char *tn = R->target >= 3 ? (R->sh[R->target - 3].random[0] == 0xCF && hello_is_hrr(&R->sh[R->target - 3]) ? "HRR" : "SH") : "CH";
@@ -887,7 +931,8 @@ static void judge(run_t *R, int prod, verdict_t *v)
         else if (!none) VIOL((snprintf(v->outcome, sizeof(v->outcome), "rewrite-accepted-by-one-endpoint|%s|%s", tn, R->info.klass), v->outcome), "%s: %s completed after in-transit rewrite %s", c->label, R->complete[0] ? "client" : "server", R->info.name);
         else if (R->info.expect == EXP_PEER_ABORTS_AT_HELLO && !hvr_ch1_only)
         {
-            if (R->after[rcv] > 0 || (R->info.alert && R->alert[rcv] != R->info.alert))
+            int a = R->alert[rcv];
+            if (R->after[rcv] > 0 || (R->info.alert > 0 && a != R->info.alert) || (R->info.alert < 0 && a != 47 && a != 40 && a != 70))
             {
                 VIOL((snprintf(v->outcome, sizeof(v->outcome), "hello-check-missing|%s|%s", tn, R->info.klass), v->outcome),
                     "%s: %s did not abort on the hello itself after rewrite %s (sent %d more records, alert %d, expected alert %d)", c->label, rcv ? "server" : "client", R->info.name, R->after[rcv], R->alert[rcv], R->info.alert);
@@ -901,6 +946,15 @@ static void judge(run_t *R, int prod, verdict_t *v)
     {
         int smax = 0, cmax = 0, i;
         for (i = 1; i <= 3; i++) { if (ref.sset & (1 << i)) smax = i; if (ref.cset & (1 << i)) cmax = i; }
+        if (c->dtls && R->alert[0] == 80 && R->nch < 2)
+        {
+            /* observation (availability only): a DTLS client created with fallbackScsv cannot encode its second ClientHello
+               (sslEncode.c: the re-encode after HelloVerifyRequest uses zeroed options but extFlags.req_fallback_scsv stays
+               set, so the length computed for the message is 2 short) and aborts with internal_error; the server-side
+               SCSV check for DTLS is exercised by the rewrite cases instead */
+            snprintf(v->outcome, sizeof(v->outcome), "fb:dtls-client-aborts-itself-a80");
+            return;
+        }
         if (smax > cmax)
         {
             if (!none) VIOL("fallback-scsv-ignored", "client max rank %d sent TLS_FALLBACK_SCSV to a server with max rank %d and the handshake completed", cmax, smax);
@@ -913,15 +967,16 @@ static void judge(run_t *R, int prod, verdict_t *v)
     {
         check_completed(R, &ref, 1, v);
         if (!ref.ref_rank) VIOL("completed-without-common-parameters", "reference says not negotiable but both completed (%s/%04x)", enc_name(R->ver_enc[0]), R->suite[0]);
-        snprintf(v->outcome, sizeof(v->outcome), "%s:ok:%s%s", pname[prod], enc_name(R->ver_enc[0]), ref.ref_rank && enc_rank(R->ver_enc[0]) != ref.ref_rank ? ":below-reference" : "");
+        snprintf(v->outcome, sizeof(v->outcome), "%s:ok:%s%s%s", pname[prod], enc_name(R->ver_enc[0]), ref.ref_rank && enc_rank(R->ver_enc[0]) != ref.ref_rank ? ":below-reference" : "",
+            R->ske_sigalg && c->nssig && !in16(c->ssig, c->nssig, R->ske_sigalg) ? ":server-signs-outside-own-verify-list" : "");
         return;
     }
     if (!none) VIOL("endpoints-disagree|completion", "honest run: client complete %d, server complete %d", R->complete[0], R->complete[1]);
     if (!al) VIOL("refused-without-alert", "handshake failed (client rc %d, server rc %d) but no fatal alert was sent", R->w.s[0].err_rc, R->w.s[1].err_rc);
     if (ref.ref_rank)
     {
-        snprintf(v->outcome, sizeof(v->outcome), "%s:NEGOTIABLE-BUT-REFUSED:a%d", pname[prod], al);
-        if ((prod == P_VER || prod == P_VERD) && ref.default_order)
+        snprintf(v->outcome, sizeof(v->outcome), "%s:%s:a%d", pname[prod], ref.ref_rank == ref.top_rank ? "NEGOTIABLE-BUT-REFUSED" : "refused-at-higher-common-version", al);
+        if ((prod == P_VER || prod == P_VERC || prod == P_VERD) && ref.default_order)
         {
             VIOL(!c->ncver || !c->nsver ? "negotiable-but-refused|library-default-versions" : "negotiable-but-refused|explicit-version-lists",
                 "both endpoints enable %s (default priority order) but the handshake fails with alert %d; session version masks client %x server %x", ref.ref_rank == 3 ? "1.3" : ref.ref_rank == 2 ? "1.2" : "1.1", al, R->supp[0], R->supp[1]);
@@ -1083,8 +1138,8 @@ int main(int argc, char **argv)
     cfg.assumptions[3] = "negotiable-but-refused is a violation only for default-order version lists (incl. library default) with PSK suites usable at every version; elsewhere it is an outcome class";
     replay = mx_parse_args(argc, argv, &cfg);
     thorough = !strcmp(cfg.tier, "thorough");
-    cfg.bound = thorough ? "all 256 ordered TLS version-list pairs (15 lists + library default per side), 4 DTLS flag pairs, version x suite cross 2401, suite subsets 2x225, groups 450+49, sigalgs 3x225, EMS 36, fallback 25; every hello rewrite on 12 base pairs"
-                         : "all 256 ordered TLS version-list pairs, 4 DTLS flag pairs, version x suite cross slice 343, suite subsets 225, groups 75+49, sigalgs 75+75, EMS 36, fallback 25; every hello rewrite on 4 base pairs";
+    cfg.bound = thorough ? "all 256 ordered TLS version-list pairs (15 lists + library default per side), 4 DTLS flag pairs, version x suite cross 2401, suite subsets 2x225, the same 256 pairs with RSA and with ECDSA certificate suites, groups 450+49, sigalgs 3x225, EMS 36, fallback 25; every hello rewrite on 12 base pairs"
+                         : "all 256 ordered TLS version-list pairs, 4 DTLS flag pairs, version x suite cross slice 343, suite subsets 225, 49 default-order pairs with RSA certificate suites, groups 75+49, sigalgs 75+75, EMS 36, fallback 25; every hello rewrite on 6 base pairs";
 
     if (replay)
     {
@@ -1107,6 +1162,7 @@ int main(int argc, char **argv)
     mx_init(&cfg);
     for (i = 0; i < psize(P_VER); i++) add_case(P_VER, i, -1, -1);
     for (i = 0; i < psize(P_VERD); i++) add_case(P_VERD, i, -1, -1);
+    for (i = 0; i < psize(P_VERC); i++) if (thorough || (i < NVL * NVL && i / NVL < 7 && i % NVL < 7)) add_case(P_VERC, i, -1, -1);
     for (i = 0; i < psize(P_EMS); i++) add_case(P_EMS, i, -1, -1);
     for (i = 0; i < psize(P_FB); i++) add_case(P_FB, i, -1, -1);
     for (i = 0; i < psize(P_VXS); i++) if (thorough || i / 343 == 6) add_case(P_VXS, i, -1, -1);
@@ -1125,7 +1181,7 @@ int main(int argc, char **argv)
     {
         probe_t pr;
         int t;
-        if (!thorough && b > 3) break;
+        if (!thorough && !(b <= 3 || b == 6 || b == 7)) continue;
         probe_base(b, &pr);
         add_case(P_RW, b, -1, -1);
         fprintf(stderr, "base %d: complete %d, %d ClientHello, %d ServerHello, rewrites %d/%d/%d/%d/%d\n", b, pr.complete, pr.nch, pr.nsh, pr.nrw[0], pr.nrw[1], pr.nrw[2], pr.nrw[3], pr.nrw[4]);
